@@ -18,6 +18,8 @@ class Facts:
         core.LOCAL_ROOTS.update(a['path'].split('::')[0] for a in d['adts'])
         core.LOCAL_ROOTS.update(b['path'].split('::')[0] for b in d['bodies'] if not b['path'].startswith('<'))
         short_name.cache_clear()
+        from . import mirinline
+        self.inlined = mirinline.inline_new_helpers(d, lambda p_: short_name(p_, True))      # helpers newer than the rules are spliced into their callers
         for b in d['bodies']:
             body = Body(b, self)
             self.bodies[body.path] = body
